@@ -273,9 +273,39 @@ fn check_fields_inner(fields: &[(String, String)], want: &[ASong], case: &Value,
     report("find", catch(|| c::Find::new(mpd_client::filter::Filter::tag(mpd_client::tag::Tag::Artist, "x")).response(frame()).map(|v| v.iter().map(observe_song).collect()).map_err(|e| e.to_string())), &want_plain, acc);
     report("listplaylistinfo", catch(|| c::GetPlaylist("p").response(frame()).map(|v| v.iter().map(observe_song).collect()).map_err(|e| e.to_string())), &want_plain, acc);
     report("listallinfo", catch(|| c::ListAllIn::root().response(frame()).map(|v| v.iter().map(observe_song).collect()).map_err(|e| e.to_string())), &want_plain, acc);
+    // the decoded listing is a function of the reply alone, not of how the request was parameterised
+    // (round 6: a result truncated to the requested window): the same reply through other builder paths
+    let filter = || mpd_client::filter::Filter::tag(mpd_client::tag::Tag::Artist, "x");
+    report("find-window-0..1", catch(|| c::Find::new(filter()).window(0..1).response(frame()).map(|v| v.iter().map(observe_song).collect()).map_err(|e| e.to_string())), &want_plain, acc);
+    report("find-window-..=0-sorted", catch(|| c::Find::new(filter()).sort(mpd_client::tag::Tag::Title).window(..=0).response(frame()).map(|v| v.iter().map(observe_song).collect()).map_err(|e| e.to_string())), &want_plain, acc);
+    report("find-window-2..", catch(|| c::Find::new(filter()).window(2..).response(frame()).map(|v| v.iter().map(observe_song).collect()).map_err(|e| e.to_string())), &want_plain, acc);
+    report("playlistinfo-range-0..1", catch(|| c::Queue::range(c::SongPosition(0)..c::SongPosition(1)).response(frame()).map(|v| v.iter().map(observe_queued).collect()).map_err(|e| e.to_string())), &want, acc);
+    report("playlistinfo-song-position", catch(|| c::Queue::song(c::SongPosition(3)).response(frame()).map(|v| v.iter().map(observe_queued).collect()).map_err(|e| e.to_string())), &want, acc);
+    report("playlistid-song-id", catch(|| c::Queue::song(c::SongId(7)).response(frame()).map(|v| v.iter().map(observe_queued).collect()).map_err(|e| e.to_string())), &want, acc);
+    report("listallinfo-directory", catch(|| c::ListAllIn::directory("some dir").response(frame()).map(|v| v.iter().map(observe_song).collect()).map_err(|e| e.to_string())), &want_plain, acc);
     if want.len() <= 1 && only_songs {
         report("currentsong", catch(|| c::CurrentSong.response(frame()).map(|v| v.iter().map(observe_queued).collect()).map_err(|e| e.to_string())), &want, acc);
     }
+}
+
+fn big_song_case(n: usize, acc: &mut Acc, verbose: bool) {
+    let names = ["Performer", "Artist", "Genre", "Composer", "X-Custom"];
+    let mut fields: Vec<(String, String)> = vec![("file".into(), "big.flac".into())];
+    let mut tags: BTreeMap<String, Vec<String>> = BTreeMap::new();
+    for i in 0..n {
+        let name = names[(i * i + i / 2) % names.len()];
+        let value = format!("{:03}", (n - i) * 7 % 1000);
+        fields.push((name.to_string(), value.clone()));
+        tags.entry(name.to_string()).or_default().push(value);
+    }
+    let second = vec![("file".to_string(), "after.flac".to_string()), ("Title".to_string(), "t".to_string())];
+    let mut want2 = ASong { url: "after.flac".into(), ..Default::default() };
+    want2.tags.insert("Title".into(), vec!["t".into()]);
+    let want = ASong { url: "big.flac".into(), tags, ..Default::default() };
+    check_fields_inner(&fields, &[want.clone()], &json!({"many_tag_lines": n}), false, true, acc, verbose);
+    let mut both = fields.clone();
+    both.extend(second);
+    check_fields_inner(&both, &[want, want2], &json!({"many_tag_lines": n}), true, true, acc, verbose);
 }
 
 /// every ordered selection of at most `k` distinct lines
@@ -399,6 +429,11 @@ pub fn run(tier: Tier) -> i32 {
             }
         }
     }
+    // songs with many tag lines (round 6: grouping by an unstable sort is order-preserving below 21 / 33
+    // elements): 20..300 lines cycling irregularly over five tags, distinct values; per tag, wire order
+    for n in [20usize, 21, 32, 33, 34, 40, 64, 100, 300] {
+        big_song_case(n, &mut acc3, false);
+    }
     // durations in other decimal spellings than MPD's %.3f (fewer / more fraction digits)
     for text in DURATION_SPELLINGS {
         let fields: Vec<(String, String)> = vec![("file".into(), "d.flac".into()), ("duration".into(), text.to_string()), ("Range".into(), format!("{text}-{text}"))];
@@ -425,7 +460,7 @@ pub fn run(tier: Tier) -> i32 {
     cov.evaluations = acc.decodes;
     cov.distinct_nontrivial = acc.nontrivial;
     cov.rule = format!(
-        "one-song listings with every ordered selection of <= {} distinct lines out of 19 (duration, Time, two Range forms, Format, Last-Modified, Prio, Pos, Id, Title twice, Artist, unknown tag): {} shapes; all listings of 0..={} entries over 10 entry kinds (6 song shapes, directory / playlist with and without their own Last-Modified): {} listings; each decoded by playlistinfo, playlistinfo RANGE, find, listplaylistinfo, listallinfo (and currentsong for <= 1 song); plus every one of the protocol's 31 tag names (and an unknown one) as a repeated line of a song, one at a time and all together; every millisecond value 0.000..5.000 s (thorough: ..60.000 s) as duration and Range start, 18 other decimal spellings (1..6 fraction digits); lower / upper case spellings of every tag name mixed with the canonical one; non-trivial = listings with several entries or a song with tags / duration",
+        "one-song listings with every ordered selection of <= {} distinct lines out of 19 (duration, Time, two Range forms, Format, Last-Modified, Prio, Pos, Id, Title twice, Artist, unknown tag): {} shapes; all listings of 0..={} entries over 10 entry kinds (6 song shapes, directory / playlist with and without their own Last-Modified): {} listings; each decoded by playlistinfo, playlistinfo RANGE / one position / one id, find (plain, windowed, sorted), listplaylistinfo, listallinfo (root, directory) (and currentsong for <= 1 song); songs of 20..300 tag lines; plus every one of the protocol's 31 tag names (and an unknown one) as a repeated line of a song, one at a time and all together; every millisecond value 0.000..5.000 s (thorough: ..60.000 s) as duration and Range start, 18 other decimal spellings (1..6 fraction digits); lower / upper case spellings of every tag name mixed with the canonical one; non-trivial = listings with several entries or a song with tags / duration",
         tier.pick(4, 5),
         sel.len(),
         tier.pick(3, 4),
@@ -470,6 +505,12 @@ pub fn replay(case: &Value) -> i32 {
             println!("replay: VIOLATION sig={sig}: {}", ex[0].what);
         }
         return 1;
+    }
+    if let Some(n) = case.get("many_tag_lines").and_then(|v| v.as_u64()) {
+        println!("replay C14: song with {n} tag lines");
+        let mut acc = Acc::default();
+        big_song_case((n as usize).min(100_000), &mut acc, true);
+        return if acc.viol.is_empty() { println!("replay: property holds on this case"); 0 } else { println!("replay: VIOLATION"); 1 };
     }
     if let Some(text) = case.get("duration_text").and_then(|v| v.as_str()) {
         println!("replay C14: song with duration {text}");
